@@ -209,8 +209,10 @@ func GHASH(H []byte, A []byte, C []byte) (X []byte) {
 func GetY0(H, IV []byte) []byte {
 	if len(IV)*8 == 96 {
 		zero31one1 := []byte{0x00, 0x00, 0x00, 0x01}
-		IV = append(IV, zero31one1...)
-		return IV
+		// do not append to the caller's slice (it may have spare capacity)
+		Y0 := make([]byte, 0, BlockSize)
+		Y0 = append(Y0, IV...)
+		return append(Y0, zero31one1...)
 	} else {
 		return GHASH(H, []byte{}, IV)
 	}
@@ -339,8 +341,8 @@ func GCMDecrypt(K, IV, C, A []byte) (P, _T []byte) {
 	Y := make([]byte, BlockSize*(n+1))
 	Y = incr(n+1, Y0)
 
-	P = make([]byte, BlockSize*n)
-	for i := 1; i <= n; i++ {
+	P = make([]byte, len(C))
+	for i := 1; i <= n-1; i++ {
 		c.Encrypt(Enc, Y[i*BlockSize:i*BlockSize+BlockSize])
 		copy(P[(i-1)*BlockSize:(i-1)*BlockSize+BlockSize], addition(C[(i-1)*BlockSize:(i-1)*BlockSize+BlockSize], Enc))
 	}
